@@ -4,6 +4,7 @@ package main
 // predicate trees, statement rendering, event recording.
 
 import (
+	"github.com/ryogrid/SamehadaDB/lib/samehada/samehada_util"
 	"fmt"
 	"math"
 	"math/rand"
@@ -24,7 +25,21 @@ import (
 
 // order-preserving rank tables (6 ranks per type), restricted to the literal forms the SQL front end
 // accepts: non-negative integers, plain decimals, quoted strings.
-var intVals = []int32{0, 1, 7, 65536, 2147483646, 2147483647}
+// (rank 4 is the largest integer whose B-tree key does not start with ff ff, see KF-C17-btree-ffff-stopper)
+var intVals = []int32{0, 1, 7, 65536, 2147418111, 2147483647}
+
+// ffRanks: ranks of the integer domain whose order-preserving index key starts with the bytes ff ff
+func ffRanks() []int {
+	out := []int{}
+	for i, v := range intVals {
+		val := types.NewInteger(v)
+		b := samehada_util.EncodeValueAndRIDToDicOrderComparableVarchar(&val, &page.RID{}).SerializeOnlyVal()
+		if len(b) >= 2 && b[0] == 0xff && b[1] == 0xff {
+			out = append(out, i)
+		}
+	}
+	return out
+}
 var floatVals = []float32{0.0, 0.5, 1.5, 2.25, 1024.125, 100000000.0}
 var strVals = []string{"", "a", "a b", "ab", "b", strings.Repeat("zy", 150)}
 var floatLits = []string{"0.0", "0.5", "1.5", "2.25", "1024.125", "100000000.0"}
@@ -295,6 +310,35 @@ func (s *sqlRun) insert(t *tableDef, rows [][]int, colOrder []int) {
 	s.emit(ev)
 }
 
+// insertOther: rows inserted by OTHER transactions (one auto-commit INSERT each) while the run's own explicit
+// transaction stays open - committed work of others that must survive the later rollback (and that uses up the
+// room on the pages the open transaction touched).
+func (s *sqlRun) insertOther(t *tableDef, rows [][]int) {
+	if s.dead || s.txn == nil || s.aborted {
+		return
+	}
+	for _, r := range rows {
+		vs := []string{}
+		for c := range t.cols {
+			vs = append(vs, lit(t.cols[c], r[c]))
+		}
+		sql := "INSERT INTO " + t.name + "(" + strings.Join(t.names, ",") + ") VALUES (" + strings.Join(vs, ", ") + ");"
+		ev := map[string]interface{}{"ev": "Insert", "t": t.name, "rows": [][]int{r}, "other": true, "conflict": true}
+		wd := s.watch(ev)
+		res := s.e.Exec(sql)
+		wd.Stop()
+		ev["res"] = res.Res
+		ev["sql"] = shortSQL(sql)
+		if strings.HasPrefix(res.Res, "panic") {
+			s.dead = true
+		}
+		s.emit(ev)
+		if s.dead {
+			return
+		}
+	}
+}
+
 func (s *sqlRun) selectQ(t *tableDef, p *pred, proj []int, sync bool) {
 	if s.dead || (s.txn != nil && s.aborted) {
 		return
@@ -430,7 +474,7 @@ func (s *sqlRun) createAPI(t *tableDef) {
 	if s.dead || (s.txn != nil && s.aborted) {
 		return
 	}
-	ev := map[string]interface{}{"ev": "Create", "t": t.name, "cols": t.cols, "kinds": t.kinds}
+	ev := map[string]interface{}{"ev": "Create", "t": t.name, "cols": t.cols, "kinds": t.kinds, "ff": ffRanks()}
 	pb := s.e.Pins()
 	res := "ok"
 	func() {
